@@ -714,6 +714,7 @@ class ParallelProcess(Process):
             'name': process.name,
             '_parallel': True,
         })
+        self._schema = process.schema
         self.profile = profile
         self._stats_objs = stats_objs
         assert not self.profile or self._stats_objs is not None
@@ -800,10 +801,14 @@ class ParallelProcess(Process):
 
     @property
     def schema(self) -> Optional[Schema]:
-        return self.run_command('schema')
+        # The schema is only ever set through this wrapper, which keeps
+        # a copy: the store reads it whenever views are rebuilt, which
+        # may happen while a command is in flight.
+        return self._schema
 
     @schema.setter
     def schema(self, value: Optional[Schema]) -> None:
+        self._schema = value
         self.run_command('set_schema', (value,))
 
     def merge_overrides(self, override: Schema) -> None:
